@@ -90,121 +90,121 @@ def T(what):
 
 PROPS = {
     "C01": dict(
-        streams=[S("array", n_quick=250), S("array_sized", n_quick=250)],
+        streams=[S("array", n_quick=625), S("array_sized", n_quick=625)],
         relevant=rel_content,
         level_text=T("invariant preservation and refinement of every array / sized-array operation to an ideal list, for all histories, indices, element values, capacities >= 1 and growth functions."),
         level_note=LN + "Float growth enters the theorems as an arbitrary function `grow`; qsort is a parameter with its assumed spec.",
     ),
     "C02": dict(
-        streams=[S("hashtable", n_quick=250), S("hashset", n_quick=150)],
+        streams=[S("hashtable", n_quick=625), S("hashset", n_quick=375)],
         relevant=rel_content,
         level_text=T("the bucket-array model with cached hashes refines an ideal map for every hash function (parameter), every capacity/threshold function, including the NULL key; resize preserves the abstraction."),
         level_note=LN + "The library's own hash functions (djb2/Murmur) are compared against the spec only (L1), their arithmetic is not modelled.",
     ),
     "C03": dict(
-        streams=[S("treetable", n_quick=250), S("treeset", n_quick=150)],
+        streams=[S("treetable", n_quick=625), S("treeset", n_quick=375)],
         relevant=rel_content,
         level_text=T("the coloured-tree model (CLRS case analysis as structural recursion, same shapes and colours as the C heap) refines an ordered map for every total-order comparator."),
         level_note=LN + "Parent/sentinel pointers are abstracted by the inductive tree; they are walked on the real heap by the shim.",
     ),
     "C04": dict(
-        streams=[S("list", n_quick=250), S("slist", n_quick=250)],
+        streams=[S("list", n_quick=625), S("slist", n_quick=625)],
         relevant=rel_content,
         level_text=T("node-sequence-plus-bookkeeping models of both lists refine an ideal sequence incl. add_all/splice on two lists; backward traversal is the mirror of the forward one."),
         level_note=LN + "Raw next/prev pointers are abstracted; the shim walks them on the real heap after every operation (WALK tokens).",
     ),
     "C05": dict(
-        streams=[S("deque", n_quick=300)],
+        streams=[S("deque", n_quick=750)],
         relevant=rel_content,
         level_text=T("the ring-buffer model of the deque (memmove by memmove) refines an ideal list in every (capacity, first, size) layout, for every index; partial on the known finding D3 (add_at front half), for which a negation theorem exhibits the failure."),
         level_note=LN + "Known finding D3 is excluded by an explicit hypothesis in the add_at theorem and by one predicate in the generator; its witness is replayed on every run.",
     ),
     "C06": dict(
-        streams=[S(c, focus="all", n_quick=60, small=False, valgrind=True, coverage=True, plain_pass=True) for c in ALL],
+        streams=[S(c, focus="all", n_quick=150, small=False, valgrind=True, coverage=True, plain_pass=True) for c in ALL],
         relevant=rel_c06,
         level_text=T("for the buffer containers no reachable state makes a checked access fault (every slot index below the allocated slot count, no modulo by zero); for every container the ledger theorems show destroy releases every owned block exactly once.") + " Partial by nature: use-after-free, uninitialised reads and pointer-level double frees in linked structures are runtime behaviour the models cannot exhibit; they are observed on sampled histories under ASan/UBSan (and valgrind in the thorough tier) with two allocation ledgers.",
         level_note=LN + "Memory errors at the C level are observed, not proved.",
     ),
     "C07": dict(
-        streams=[S(c, focus="iter", n_quick=120) for c in ["array", "array_sized", "deque", "list", "slist", "hashtable", "hashset", "treetable", "treeset", "tsttable", "queue", "stack"]],
+        streams=[S(c, focus="iter", n_quick=300) for c in ["array", "array_sized", "deque", "list", "slist", "hashtable", "hashset", "treetable", "treeset", "tsttable", "queue", "stack"]],
         relevant=rel_content,
         level_text=T("iterator cursors are part of the models; theorems relate next/remove/add/replace to an ideal cursor over the abstract sequence (complete, in order, one-step mutation affects exactly the yielded position)."),
         level_note=LN + "Programs respect the documented contract (mutators only after a successful next, one structural change per yield).",
     ),
     "C08": dict(
-        streams=[S(c, focus="fault", n_quick=40, small=False, faults=True, coverage=True) for c in ["array", "array_sized", "pqueue", "deque", "list", "slist", "hashtable", "hashset", "treetable", "treeset", "tsttable", "queue", "stack", "rbuf", "dpool"]],
+        streams=[S(c, focus="fault", n_quick=100, small=False, faults=True, coverage=True) for c in ["array", "array_sized", "pqueue", "deque", "list", "slist", "hashtable", "hashset", "treetable", "treeset", "tsttable", "queue", "stack", "rbuf", "dpool"]],
         relevant=rel_c08,
         level_text=T("for every refusal schedule a refused allocation yields the allocation-error status, leaves the abstraction unchanged and the ledger consistent (atomicity conjunct of each step theorem).") + " The run enumerates, for every operation of sampled histories, every allocator call of that operation as the one that is refused.",
         level_note=LN,
     ),
     "C09": dict(
-        streams=[S("stack", n_quick=300), S("queue", n_quick=300)],
+        streams=[S("stack", n_quick=750), S("queue", n_quick=750)],
         relevant=rel_content,
         level_text=T("stack = array model (push=add, pop=remove_last), queue = deque model (enqueue=add_first, poll=remove_last); LIFO/FIFO statements are corollaries of the array and deque refinement theorems."),
         level_note=LN,
     ),
     "C10": dict(
-        streams=[S("pqueue", n_quick=400)],
+        streams=[S("pqueue", n_quick=1000)],
         relevant=rel_content,
         level_text=T("heap invariant preserved by push/pop for every total preorder; top/pop return a maximal element; multiset conservation (List.Perm); index macros are regenerated from the C source on every run."),
         level_note=LN,
     ),
     "C11": dict(
-        streams=[S("tsttable", n_quick=300)],
+        streams=[S("tsttable", n_quick=750)],
         relevant=rel_content,
         level_text=T("the ternary-tree model refines an ideal string-keyed map for non-empty keys; partial on the known finding X5 (empty key aliases the root), with a negation theorem."),
         level_note=LN + "The pointer automaton of iter_next is tied to the recursive enumeration by the correspondence only.",
     ),
     "C12": dict(
-        streams=[S("spool", n_quick=400)],
+        streams=[S("spool", n_quick=1000)],
         relevant=rel_content,
         level_text=T("offset model of the static pool refines a block ledger: containment, disjointness, zeroing, exact accounting, single-slot roll-back, reset."),
         level_note=LN,
     ),
     "C13": dict(
-        streams=[S("dpool", n_quick=400)],
+        streams=[S("dpool", n_quick=1000)],
         relevant=rel_content,
         level_text=T("page-list model of the dynamic pool: blocks in-page and disjoint, fixed pools bounded, expansion leaves older pages untouched, relative alignment in padded mode, reset/destroy release every page once; known finding M6 (absolute alignment above 16)."),
         level_note=LN,
     ),
     "C14": dict(
-        streams=[S(c, focus="all", n_quick=50, small=False, alloc_modes=True, coverage=True, plain_pass=True) for c in SEQ + MAPS + ["pqueue", "rbuf"]],
+        streams=[S(c, focus="all", n_quick=125, small=False, alloc_modes=True, coverage=True, plain_pass=True) for c in SEQ + MAPS + ["pqueue", "rbuf"]],
         relevant=rel_c14,
         level_text=T("every container state records the allocator triple it was built with (configured or C library), every allocation and release of every model operation goes through that triple (two separately counted ledgers), derived containers and wrapped inner containers inherit it exactly where the C code copies the three function pointers; outputs and states depend on the ledger only through the refusal schedule.") + " Because this is a property of which function the C text calls, the weight is on the tie: every operation runs with two ledgers armed (configured / libc via linker --wrap) and every history is re-run on a static and on a dynamic pool of the library itself.",
         level_note=LN,
     ),
     "C15": dict(
-        streams=[S(c, focus="derived", n_quick=150) for c in ["array", "array_sized", "deque", "list", "slist", "hashtable", "stack"]],
+        streams=[S(c, focus="derived", n_quick=375) for c in ["array", "array_sized", "deque", "list", "slist", "hashtable", "stack"]],
         relevant=rel_content,
         level_text=T("derived containers (copies, sub-ranges, filters, key/value snapshots) have exactly the selected content, satisfy the invariant with the source's configuration (so they can grow), and leave the source unchanged."),
         level_note=LN + "Independence (no aliasing between source and result) is checked on the real heap by running further operations on both and destroying one.",
     ),
     "C16": dict(
-        streams=[S(c, focus="reject", n_quick=150) for c in ["array", "array_sized", "deque", "list", "slist", "treetable", "hashtable", "tsttable", "pqueue", "rbuf", "stack", "queue"]],
+        streams=[S(c, focus="reject", n_quick=375) for c in ["array", "array_sized", "deque", "list", "slist", "treetable", "hashtable", "tsttable", "pqueue", "rbuf", "stack", "queue"]],
         relevant=rel_c16,
         level_text=T("per operation: an error status other than ALLOC leaves the whole physical state unchanged, and every argument outside the documented range is rejected, for all arguments in the size_t domain.") + " The argument guards of 31 indexed functions are additionally translated from the C text into Lean on every run (tools/gen_guards.py) and proved equal to the models' guards, so an edited guard breaks a proof obligation at build time.",
         level_note=LN,
     ),
     "C17": dict(
-        streams=[S("treetable", n_quick=300)],
+        streams=[S("treetable", n_quick=750)],
         relevant=rel_content,
         level_text=T("red-black invariant preserved; height <= 2*log2(n+1); comparator-call counts of the descent functions bounded by 2*floor(log2(n+1))+2.") + " The shim counts real comparator calls per public call and recomputes the red-black rules on the C heap after every operation.",
         level_note=LN,
     ),
     "C18": dict(
-        streams=[S(c, focus="sort", n_quick=200) for c in ["array", "array_sized", "list", "slist"]],
+        streams=[S(c, focus="sort", n_quick=500) for c in ["array", "array_sized", "list", "slist"]],
         relevant=rel_content,
         level_text=T("cc_list_sort_in_place (merge sort) yields a stable sorted permutation for every total preorder; qsort-based sorts are proofs relative to the assumed qsort spec (sorted permutation)."),
         level_note=LN + "libc qsort is trusted (parameter sortFn).",
     ),
     "C20": dict(
-        streams=[S(c, focus="growth", n_quick=60, growth_count=True) for c in ["array", "array_sized", "pqueue", "deque", "hashtable", "stack", "queue"]],
+        streams=[S(c, focus="growth", n_quick=150, growth_count=True) for c in ["array", "array_sized", "pqueue", "deque", "hashtable", "stack", "queue"]],
         relevant=rel_c20, extra_lean=["CollectionsC/Proofs/Growth.lean"],
         level_text=T("size <= capacity and power-of-two capacities are part of each invariant; the number of reallocations during n appends is at most log2(size+n)+1 whenever a growth step at least doubles the capacity (default factor, deque, hash table); for the pointer array also a bound for every factor >= 1+1/k.") + " The run counts real buffer allocations per append through the ledger and compares them with the bound for the configured factor.",
         level_note=LN + "General rational factors are measured, not proved.",
     ),
     "C19": dict(
-        streams=[S("rbuf", n_quick=400, n_thorough=20000)],
+        streams=[S("rbuf", n_quick=1000, n_thorough=20000)],
         relevant=rel_content,
         level_text="Refinement theorems in Lean 4: the concrete ring-buffer model (same fields and statements as cc_ring_buffer.c) preserves its invariant and refines a bounded FIFO that drops exactly the oldest item, for every capacity >= 1, every item value and every enqueue/dequeue history; the model is tied to the code by the differential correspondence on every run.",
         level_note=LN + "Capacities other than 10 are set through the shim because the conf struct is opaque.",
